@@ -353,3 +353,8 @@ MUTANTS += [
          old="    def h_u(self, t, q, u):\n        coo = CooMatrix((self.nu, self.nu))\n",
          new="    @cachedmethod(lambda self: self._hu_cache, key=lambda self, t, q, u: hashkey(t, *q))\n    def h_u(self, t, q, u):\n        coo = CooMatrix((self.nu, self.nu))\n", expect="C10.R9"),
 ]
+
+MUTANTS += [
+    dict(id="c10-r8-antipode", canary=True, what="[seeded by sub-agent] Quaternion kernel: nodal quaternions with negative real part are replaced by their antipode before interpolation (absolute, not relative, hemisphere test)", file=CR,
+         old="                p_node = qe[self.nodalDOF_element_p[node]]\n                p += N[node] * p_node\n", new="                p_node = qe[self.nodalDOF_element_p[node]]\n                if p_node[0] < 0:\n                    p_node = -p_node\n                p += N[node] * p_node\n", expect="C10.R8"),
+]
